@@ -30,8 +30,8 @@ theorem handleMsgs_frame (ms : List Msg) (e : Ep) :
     · rename_i hc
       refine ⟨rfl, rfl, List.prefix_append _ _, ?_⟩
       intro h; rw [hc] at h; exact absurd h (by simp)
-    · obtain ⟨h1, h2, h3⟩ := frame_handleMsg e m
-      obtain ⟨i1, i2, i3, i4⟩ := ih (handleMsg e m).1
+    · obtain ⟨h1, h2, h3⟩ := frame_handleMsg { e with rxMore := !ms.isEmpty || e.rx.dead } m
+      obtain ⟨i1, i2, i3, i4⟩ := ih (handleMsg { e with rxMore := !ms.isEmpty || e.rx.dead } m).1
       refine ⟨by rw [i1, h2], by rw [i2, h3], ?_, ?_⟩
       · rw [h1] at i3; simpa [List.append_assoc] using i3
       · intro h; rw [i4 h, h1]; simp
@@ -146,7 +146,7 @@ theorem frameInv_step (e : Ep) (ev : Ev) (hi : FrameInv e) : FrameInv (step e ev
       split
       · -- the connection is closed on a bad contact header: only `closed` changes
         obtain ⟨k1, k2, k3⟩ := key
-        have hv := view_doClose (handleMsgs (rxEntry e c) (feed e.rx c).2).1
+        have hv := view_doClose { (handleMsgs (rxEntry e c) (feed e.rx c).2).1 with rxMore := false }
         have e1 := congrArg RxView.processed hv
         have e2 := congrArg RxView.rx hv
         have e3 := congrArg RxView.rxBytes hv
